@@ -44,6 +44,8 @@ def aliases(fn, seeds=None):
                 v = _base(st.value)
                 if isinstance(v, ast.Name) and v.id in alias:
                     new.add(st.targets[0].id)
+                elif copy_kind(st.value, alias) == 'alias':
+                    new.add(st.targets[0].id)          # np.asarray(x), x.reshape(..), x.T: the caller's array, or a view of it
             elif isinstance(st, ast.Assign) and len(st.targets) == 1 and isinstance(st.targets[0], (ast.Tuple, ast.List)) \
                     and isinstance(st.value, (ast.Tuple, ast.List)) and len(st.value.elts) == len(st.targets[0].elts):
                 for t, x in zip(st.targets[0].elts, st.value.elts):
